@@ -7,7 +7,7 @@
 namespace vf {
 
 enum Kind { K_POINT_NAME, K_ANALOG_NAME, K_PARAM, K_LOCK, K_UNLOCK, K_FRAME, K_COL_POINT, K_COL_ANALOG, K_RELOAD, K_SAVE, K_PRINT,
-            K_REG_BUILD, K_REG_MUT, K_REG_EXT, K_EDIT_STORED, K_LOAD_ROOT, K_PARAM_UNTYPED };
+            K_REG_BUILD, K_REG_MUT, K_REG_EXT, K_EDIT_STORED, K_LOAD_ROOT, K_PARAM_UNTYPED, K_BULK };
 
 struct CallInfo {
     Kind kind = K_PRINT;
@@ -467,6 +467,39 @@ inline Op opSubmitStored(size_t fi, const std::string& tgt, const Limits& L) {
         ci.kind = K_FRAME; ci.dev = "self"; targetIdx(tgt, s.o.frames.size(), ci.append, ci.idx); ci.given = s.o.frames[fi];
         const Frame& ref = w.c->data().frame(fi);
         if (ci.append) w.c->frame(ref); else w.c->frame(ref, ci.idx);
+    };
+    return o;
+}
+// ---- bulk ops: one op = the same public call made many times in a row (counts beyond the small shape guards: 17, 33, 65 cross the growth steps of containers)
+inline Op opBulkPoints(int n) {
+    Op o; o.name = "point(name)x" + std::to_string(n); o.cls = "point(name)";
+    o.enabled = [](const World&, const WSnap& s) { return s.o.frames.empty() && pStrs(s.o, "POINT", "LABELS").empty() && !s.loadedRoot; };
+    o.apply = [n](World& w, const WSnap&, CallInfo& ci) { ci.kind = K_BULK; for (int i = 0; i < n; ++i) w.c->point("P" + std::to_string(i)); };
+    return o;
+}
+inline Op opBulkChans(int n) {
+    Op o; o.name = "analog(name)x" + std::to_string(n); o.cls = "analog(name)";
+    o.enabled = [](const World&, const WSnap& s) { return s.o.frames.empty() && pStrs(s.o, "ANALOG", "LABELS").empty() && !s.loadedRoot; };
+    o.apply = [n](World& w, const WSnap&, CallInfo& ci) { ci.kind = K_BULK; for (int i = 0; i < n; ++i) w.c->analog("c" + std::to_string(i)); };
+    return o;
+}
+inline Op opBulkFrames(int n) {   // n conforming frames appended one after the other (three value sets in turn), then frame 1 replaced
+    Op o; o.name = "frame(ok,app)x" + std::to_string(n) + "+replace"; o.cls = "frame";
+    o.enabled = [](const World&, const WSnap& s) { Shape sh = declaredShape(s.o); if (!s.o.frames.empty() || (sh.pts.empty() && sh.nsub == 0)) return false; if (!sh.pts.empty() && pFloat(s.o, "POINT", "RATE") == 0.0f) return false; if (sh.nsub && pFloat(s.o, "ANALOG", "RATE") == 0.0f) return false; return true; };
+    o.apply = [n](World& w, const WSnap& s, CallInfo& ci) { ci.kind = K_BULK; Shape sh = declaredShape(s.o); for (int i = 0; i < n; ++i) w.c->frame(buildFrame(sh, i % 3)); w.c->frame(buildFrame(sh, 2), 1); };
+    return o;
+}
+// a whole recording in one op: P points and C channels declared by name, rates 100 / 200 Hz, F conforming frames appended (value sets in turn), frame 1 replaced
+inline Op opBigObject(int P, int C, int F) {
+    Op o; o.name = "big(" + std::to_string(P) + "pts," + std::to_string(C) + "ch," + std::to_string(F) + "fr)"; o.cls = "bulk";
+    o.enabled = [](const World&, const WSnap& s) { return nothingDeclared(s.o) && !s.loadedRoot && s.o.groups.size() <= 2; };
+    o.apply = [P, C, F](World& w, const WSnap&, CallInfo& ci) {
+        ci.kind = K_BULK; Shape sh;
+        for (int i = 0; i < P; ++i) { sh.pts.push_back("P" + std::to_string(i)); w.c->point(sh.pts.back()); }
+        for (int i = 0; i < C; ++i) { sh.chans.push_back("c" + std::to_string(i)); w.c->analog(sh.chans.back()); }
+        if (P) w.c->parameter("POINT", mkRate(100.f)); if (C) { w.c->parameter("ANALOG", mkRate(P ? 200.f : 100.f)); sh.nsub = P ? 2 : 1; }
+        for (int i = 0; i < F; ++i) w.c->frame(buildFrame(sh, i % 3));
+        if (F > 1) w.c->frame(buildFrame(sh, 2), 1);
     };
     return o;
 }
